@@ -337,6 +337,19 @@ def case_block(name, cap, d=None):
 def run_lean(lines, nproc=8):
     """lines: full case file (list of str). Splits by CASE across processes; returns dict (name, query) -> answer"""
     binp = os.path.join(LEAN, '.lake', 'build', 'bin', 'logosmodel')
+    if nproc == 0:
+        # one process, order preserved (queries that refer to several cases)
+        p = subprocess.run([binp], input='\n'.join(lines) + '\n', capture_output=True, text=True)
+        if p.returncode != 0:
+            raise RuntimeError('lean driver failed: ' + p.stderr[-2000:])
+        res = {}
+        for ln in p.stdout.split('\n'):
+            if ' : ' in ln:
+                k, v = ln.split(' : ', 1)
+                res[k] = v
+            elif ln.endswith(' :'):
+                res[ln[:-2]] = ''
+        return res
     blocks = []
     cur = None
     for ln in lines:
